@@ -37,6 +37,7 @@ def rand_payload(rnd: random.Random) -> Payload:
 # ------------------------------------------------------------------------------------------------
 # C14: FIFO / BasicFifo
 class FifoM(Model):
+    shared_ports = ("peek", "clear")  # BasicFifo: "peek ... the method is nonexclusive", clear
     def __init__(self, depth: int, pay: Payload, basic: bool):
         self.depth, self.pay, self.basic = depth, pay, basic
         self.q: collections.deque = collections.deque()
@@ -107,6 +108,7 @@ class FifoM(Model):
 # ------------------------------------------------------------------------------------------------
 # C15: WideFifo
 class WideM(Model):
+    shared_ports = ("peek", "clear")
     ports = {"read": 1, "peek": 1, "write": 1, "clear": 0.03}
 
     def __init__(self, width, depth, rw, ww, mc):
@@ -209,6 +211,7 @@ class WideM(Model):
 # ------------------------------------------------------------------------------------------------
 # C16: Stack
 class StackM(Model):
+    shared_ports = ("peek", "clear")
     ports = {"read": 1, "peek": 1, "write": 1, "clear": 0.04}
 
     def __init__(self, depth, pay: Payload):
@@ -269,6 +272,7 @@ class StackM(Model):
 # ------------------------------------------------------------------------------------------------
 # C17: Forwarder / Pipe
 class SlotM(Model):
+    shared_ports = ("peek", "clear")
     ports = {"read": 1, "peek": 1, "write": 1, "clear": 0.08}
     needs_dones = True
 
@@ -336,6 +340,7 @@ class SlotM(Model):
 # ------------------------------------------------------------------------------------------------
 # C20: Semaphore
 class SemM(Model):
+    shared_ports = ("clear",)
     ports = {"acquire": 1, "release": 1, "clear": 0.06}
 
     def __init__(self, mx):
@@ -439,6 +444,7 @@ class CamM(Model):
 # ------------------------------------------------------------------------------------------------
 # C25: PriorityEncoderAllocator
 class PEAllocM(Model):
+    shared_ports = ("clear",)
     conflict_groups = [{"replace", "clear"}]
 
     def __init__(self, n, aw, fw, init):
@@ -517,6 +523,7 @@ class PEAllocM(Model):
 # ------------------------------------------------------------------------------------------------
 # C26: PreservedOrderAllocator
 class POAllocM(Model):
+    shared_ports = ("order", "clear")
     ports = {"alloc": 1, "free": 0.6, "free_idx": 0.6, "order": 1, "clear": 0.03}
     conflict_groups = [{"free", "free_idx"}]
 
@@ -584,6 +591,7 @@ class POAllocM(Model):
 # ------------------------------------------------------------------------------------------------
 # C27: CircularAllocator
 class CircM(Model):
+    shared_ports = ("clear",)
     ports = {"alloc": 1, "free": 1, "clear": 0.03}
 
     def __init__(self, n, ma, mf, validate=True):
